@@ -8,7 +8,7 @@
            content) under Read/Write/WriteString/WriteAt/Seek/Truncate, and under ReadAt exactly
            when unionFile.go's ReadAt does not seek the base (constant union_readat_seeks_base). *)
 From AF Require Import Lib.Bytes Lib.Path Lib.Ops Gen.Consts Model.MemFile Model.MemFs Model.Union Model.Cow
-  Model.Cache Model.Stack Proofs.MemFsBasics.
+  Model.Cache Model.Stack Proofs.MemFsBasics Proofs.PathProof.
 Local Open Scope Z_scope.
 
 (* ------------------------------------------------------------------------------------------ *)
@@ -374,3 +374,454 @@ Proof.
 Qed.
 
 End Generic.
+
+(* ------------------------------------------------------------------------------------------ *)
+(* Part 2: MemMapFs layers — copyFile moves exactly the base's bytes and the base's mtime      *)
+(* ------------------------------------------------------------------------------------------ *)
+
+(* --- lists --- *)
+Lemma nth_error_list_set_eq {A} (l : list A) i v : (i < length l)%nat -> nth_error (list_set i v l) i = Some v.
+Proof.
+  revert i. induction l as [|x l IH]; intros i Hi; [cbn in Hi; lia|].
+  destruct i; cbn; [reflexivity|]. apply IH. cbn in Hi. lia.
+Qed.
+Lemma nth_error_list_set_neq {A} (l : list A) i j v : i <> j -> nth_error (list_set i v l) j = nth_error l j.
+Proof.
+  revert i j. induction l as [|x l IH]; intros i j Hij; [destruct i; reflexivity|].
+  destruct i, j; cbn; try reflexivity; [contradiction|]. apply IH. lia.
+Qed.
+Lemma nth_error_app_last {A} (l : list A) x : nth_error (l ++ [x]) (length l) = Some x.
+Proof. rewrite nth_error_app2 by lia. rewrite Nat.sub_diag. reflexivity. Qed.
+Lemma nth_error_lt {A} (l : list A) i x : nth_error l i = Some x -> (i < length l)%nat.
+Proof. intros H. apply nth_error_Some. rewrite H. discriminate. Qed.
+Lemma list_set_len {A} (l : list A) i a : length (list_set i a l) = length l.
+Proof. revert i. induction l as [|x l IH]; intros i; [destruct i; reflexivity|]. destruct i; cbn; [reflexivity | now rewrite IH]. Qed.
+
+(* --- the state after one API call: the raw step, then the clock advances --- *)
+Definition bump (s : mst) : mst := mkM (mdata s) (mheap s) (mhandles s) (mclock s + 1).
+Lemma m_step_bump s o : m_step s o = (bump (fst (m_step_raw s o)), snd (m_step_raw s o)).
+Proof. unfold m_step. destruct (m_step_raw s o). reflexivity. Qed.
+
+Lemma get_node_upd_eq s f g nd : get_node s f = Some nd -> get_node (upd_node s f g) f = Some (g nd).
+Proof.
+  intros H. unfold upd_node. rewrite H. unfold get_node, set_node. cbn [mheap].
+  apply nth_error_list_set_eq. exact (nth_error_lt _ _ _ H).
+Qed.
+Lemma get_node_upd_neq s f g k : k <> f -> get_node (upd_node s f g) k = get_node s k.
+Proof.
+  intros H. unfold upd_node. destruct (get_node s f); [|reflexivity]. unfold get_node, set_node. cbn [mheap].
+  apply nth_error_list_set_neq. congruence.
+Qed.
+Lemma mhandles_upd s f g : mhandles (upd_node s f g) = mhandles s.
+Proof. unfold upd_node. destruct (get_node s f); reflexivity. Qed.
+Lemma mdata_upd s f g : mdata (upd_node s f g) = mdata s.
+Proof. unfold upd_node. destruct (get_node s f); reflexivity. Qed.
+Lemma mclock_upd s f g : mclock (upd_node s f g) = mclock s.
+Proof. unfold upd_node. destruct (get_node s f); reflexivity. Qed.
+Lemma heap_len_upd s f g : length (mheap (upd_node s f g)) = length (mheap s).
+Proof. unfold upd_node. destruct (get_node s f); [|reflexivity]. cbn. apply list_set_len. Qed.
+
+(* --- bytes --- *)
+Lemma zlen_app {A} (a b : list A) : zlen (a ++ b) = zlen a + zlen b.
+Proof. unfold zlen. rewrite app_length. lia. Qed.
+Lemma zlen_ge0 {A} (l : list A) : 0 <= zlen l.
+Proof. unfold zlen. lia. Qed.
+Lemma zlen_slice (data : bytes) a b : 0 <= a <= b -> b <= zlen data -> zlen (slice data a b) = b - a.
+Proof.
+  intros Ha Hb. unfold slice, zlen in *. rewrite firstn_length, skipn_length. lia.
+Qed.
+Lemma firstn_plus {A} (l : list A) a k : firstn (a + k) l = firstn a l ++ firstn k (skipn a l).
+Proof.
+  revert l. induction a as [|a IH]; intros l; [reflexivity|].
+  destruct l as [|x l]; cbn; [now rewrite firstn_nil | now rewrite IH].
+Qed.
+Lemma firstn_slice (data : bytes) a b : 0 <= a <= b ->
+  firstn (Z.to_nat a) data ++ slice data a b = firstn (Z.to_nat b) data.
+Proof.
+  intros Ha. unfold slice. replace (Z.to_nat b) with (Z.to_nat a + Z.to_nat (b - a))%nat by lia.
+  rewrite firstn_plus. reflexivity.
+Qed.
+Lemma firstn_zlen {A} (l : list A) : firstn (Z.to_nat (zlen l)) l = l.
+Proof. unfold zlen. rewrite Nat2Z.id. apply firstn_all. Qed.
+Lemma go_write_append data b : go_write data b (zlen data) = data ++ b.
+Proof.
+  unfold go_write. rewrite Z.sub_diag. cbn [Z.ltb Z.compare].
+  assert (H : zlen b + zlen data <? zlen data = false) by (apply Z.ltb_ge; pose proof (zlen_ge0 b); lia).
+  rewrite H, firstn_zlen, app_nil_r. reflexivity.
+Qed.
+
+(* --- m_step on a handle: what it does to the handle and to the node --- *)
+Lemma mstep_hread s i h nd n :
+  nth_error (mhandles s) i = Some h -> get_node s (href h) = Some nd ->
+  m_step s (HRead i n) = (bump (set_handle s i (fst (f_read (ndata nd) h n))), snd (f_read (ndata nd) h n)).
+Proof.
+  intros Hh Hn. rewrite m_step_bump. cbn [m_step_raw]. unfold m_hop. rewrite Hh, Hn.
+  destruct (f_read (ndata nd) h n). reflexivity.
+Qed.
+Lemma mstep_hwrite s i h nd b :
+  nth_error (mhandles s) i = Some h -> get_node s (href h) = Some nd ->
+  m_step s (HWrite i b) =
+    (bump (put_data (set_handle s i (snd (fst (f_write (ndata nd) h b)))) (href h) (fst (fst (f_write (ndata nd) h b)))),
+     snd (f_write (ndata nd) h b)).
+Proof.
+  intros Hh Hn. rewrite m_step_bump. cbn [m_step_raw]. unfold m_hop. rewrite Hh, Hn.
+  destruct (f_write (ndata nd) h b) as [[d h'] r]. reflexivity.
+Qed.
+Lemma mstep_hstat s i h nd :
+  nth_error (mhandles s) i = Some h -> get_node s (href h) = Some nd ->
+  m_step s (HStat i) = (bump s, RInfo (finfo_of nd)).
+Proof. intros Hh Hn. rewrite m_step_bump. cbn [m_step_raw]. unfold m_hop. rewrite Hh, Hn. reflexivity. Qed.
+
+Lemma f_read_more data h n :
+  hclosed h = false -> 0 <= hat h < zlen data -> 0 < n ->
+  f_read data h n = (set_at h (hat h + Z.min n (zlen data - hat h)),
+                     RData (slice data (hat h) (hat h + Z.min n (zlen data - hat h))) None).
+Proof.
+  intros Hc Hk Hn. unfold f_read. rewrite Hc.
+  assert (E1 : (hat h =? zlen data) = false) by (apply Z.eqb_neq; lia). rewrite E1, andb_false_r.
+  assert (E2 : (zlen data <? hat h) = false) by (apply Z.ltb_ge; lia). rewrite E2.
+  assert (E3 : (hat h <? 0) = false) by (apply Z.ltb_ge; lia). rewrite E3.
+  destruct (n <=? zlen data - hat h) eqn:E4.
+  - apply Z.leb_le in E4. rewrite Z.min_l by lia. reflexivity.
+  - apply Z.leb_gt in E4. rewrite Z.min_r by lia. reflexivity.
+Qed.
+Lemma f_read_eof data h n :
+  hclosed h = false -> hat h = zlen data -> 0 < n -> f_read data h n = (h, RData [] (Some (E KEOF))).
+Proof.
+  intros Hc Hk Hn. unfold f_read. rewrite Hc.
+  assert (E0 : (0 <? n) = true) by (apply Z.ltb_lt; lia).
+  assert (E1 : (hat h =? zlen data) = true) by (apply Z.eqb_eq; lia). rewrite E0, E1. reflexivity.
+Qed.
+Lemma f_write_append data h b :
+  hclosed h = false -> hro h = false -> b <> [] -> hat h = zlen data ->
+  f_write data h b = (Some (data ++ b), set_at h (zlen data + zlen b), RCount (zlen b) None).
+Proof.
+  intros Hc Hr Hb Hk. unfold f_write. rewrite Hc, Hr.
+  assert (E1 : (zlen b =? 0) = false).
+  { apply Z.eqb_neq. destruct b; [contradiction|]. unfold zlen. cbn [length]. lia. }
+  assert (E2 : (hat h <? 0) = false) by (apply Z.ltb_ge; pose proof (zlen_ge0 data); lia).
+  rewrite E1, E2, Hk, go_write_append. reflexivity.
+Qed.
+
+(* the base: an open read-only handle bh (as Open hands out) on node fb (content of nb), at offset k *)
+Definition BaseAt (s : mst) (bh fb : nat) (nb : node) (k : Z) : Prop :=
+  exists hb, nth_error (mhandles s) bh = Some hb /\ href hb = fb /\ hclosed hb = false /\ hro hb = true /\
+             hat hb = k /\ get_node s fb = Some nb.
+(* the layer: an open writable handle lh on the regular file fl registered as key, holding d, offset at its end *)
+Definition LayerAt (s : mst) (lh fl : nat) (key : str) (d : bytes) : Prop :=
+  exists hl nl, nth_error (mhandles s) lh = Some hl /\ href hl = fl /\ hclosed hl = false /\ hro hl = false /\
+                hat hl = zlen d /\ get_node s fl = Some nl /\ ndir nl = false /\ ndata nl = d /\
+                lookup s key = Some fl.
+
+Lemma BaseAt_bump s bh fb nb k : BaseAt s bh fb nb k -> BaseAt (bump s) bh fb nb k.
+Proof. intros [hb H]. exists hb. exact H. Qed.
+
+Lemma base_read_more s bh fb nb k :
+  BaseAt s bh fb nb k -> 0 <= k < zlen (ndata nb) ->
+  let kk := Z.min 32768 (zlen (ndata nb) - k) in
+  exists s', m_step s (HRead bh 32768) = (s', RData (slice (ndata nb) k (k + kk)) None) /\
+             BaseAt s' bh fb nb (k + kk) /\ fs_view s' = fs_view s.
+Proof.
+  intros [hb [Hh [Hf [Hc [Hro [Hk Hn]]]]]] Hr kk. subst fb k.
+  rewrite (mstep_hread s bh hb nb 32768 Hh Hn), (f_read_more (ndata nb) hb 32768 Hc Hr) by lia.
+  cbn [fst snd]. eexists. split; [reflexivity|]. split; [|reflexivity].
+  exists (set_at hb (hat hb + kk)). repeat split; try assumption.
+  unfold bump, set_handle. cbn [mhandles]. apply nth_error_list_set_eq. exact (nth_error_lt _ _ _ Hh).
+Qed.
+
+Lemma base_read_eof s bh fb nb :
+  BaseAt s bh fb nb (zlen (ndata nb)) ->
+  exists s', m_step s (HRead bh 32768) = (s', RData [] (Some (E KEOF))) /\
+             BaseAt s' bh fb nb (zlen (ndata nb)) /\ fs_view s' = fs_view s.
+Proof.
+  intros [hb [Hh [Hf [Hc [Hro [Hk Hn]]]]]]. subst fb.
+  rewrite (mstep_hread s bh hb nb 32768 Hh Hn), (f_read_eof (ndata nb) hb 32768 Hc Hk) by lia.
+  cbn [fst snd]. eexists. split; [reflexivity|]. split; [|reflexivity].
+  exists hb. repeat split; try assumption.
+  unfold bump, set_handle. cbn [mhandles]. apply nth_error_list_set_eq. exact (nth_error_lt _ _ _ Hh).
+Qed.
+
+Lemma layer_write s lh fl key d chunk :
+  LayerAt s lh fl key d -> chunk <> [] ->
+  exists s', m_step s (HWrite lh chunk) = (s', RCount (zlen chunk) None) /\ LayerAt s' lh fl key (d ++ chunk).
+Proof.
+  intros [hl [nl [Hh [Hf [Hc [Hro [Hk [Hn [Hd [Hdat Hl]]]]]]]]]] Hne. subst fl.
+  rewrite (mstep_hwrite s lh hl nl chunk Hh Hn). rewrite Hdat in *.
+  rewrite (f_write_append d hl chunk Hc Hro Hne Hk). cbn [fst snd].
+  eexists. split; [reflexivity|].
+  exists (set_at hl (zlen d + zlen chunk)), (with_mtime (mclock s) (with_data (d ++ chunk) nl)).
+  unfold put_data. repeat split.
+  - unfold bump. cbn [mhandles]. rewrite mhandles_upd. unfold set_handle. cbn [mhandles].
+    apply nth_error_list_set_eq. exact (nth_error_lt _ _ _ Hh).
+  - exact Hc.
+  - exact Hro.
+  - cbn [hat set_at]. rewrite zlen_app. reflexivity.
+  - exact (get_node_upd_eq (set_handle s lh (set_at hl (zlen d + zlen chunk))) (href hl)
+             (fun n => with_mtime (mclock s) (with_data (d ++ chunk) n)) nl Hn).
+  - exact Hd.
+  - unfold bump, lookup. cbn [mdata]. rewrite mdata_upd. exact Hl.
+Qed.
+
+(* io.Copy's loop: any file size, given enough fuel (copyFile supplies size + 2) *)
+Lemma io_copy_correct bh fb nb lh fl key : forall fuel sb sl k,
+  BaseAt sb bh fb nb k -> 0 <= k <= zlen (ndata nb) ->
+  LayerAt sl lh fl key (firstn (Z.to_nat k) (ndata nb)) ->
+  (Z.to_nat (zlen (ndata nb) - k) < fuel)%nat ->
+  exists sb' sl', io_copy m_step m_step fuel sb sl bh lh k = (sb', sl', zlen (ndata nb), None) /\
+                  BaseAt sb' bh fb nb (zlen (ndata nb)) /\ LayerAt sl' lh fl key (ndata nb) /\
+                  fs_view sb' = fs_view sb.
+Proof.
+  induction fuel as [|fuel IH]; intros sb sl k Hb Hk Hl Hf; [lia|].
+  cbn [io_copy]. destruct (Z.eq_dec k (zlen (ndata nb))) as [He|He].
+  - subst k. destruct (base_read_eof sb bh fb nb Hb) as [sb' [Hs [Hb' Hv]]]. rewrite Hs.
+    cbn [zlen length Z.of_nat Z.ltb Z.compare errk_eqb ek E]. rewrite Z.add_0_r.
+    exists sb', sl. repeat split; try assumption. rewrite firstn_zlen in Hl. exact Hl.
+  - assert (Hr : 0 <= k < zlen (ndata nb)) by lia.
+    destruct (base_read_more sb bh fb nb k Hb Hr) as [sb' [Hs [Hb' Hv]]]. cbv zeta in *. rewrite Hs.
+    set (kk := Z.min 32768 (zlen (ndata nb) - k)) in *.
+    assert (Hkk : 0 < kk) by (unfold kk; lia).
+    assert (Hz : zlen (slice (ndata nb) k (k + kk)) = kk) by (rewrite zlen_slice; unfold kk; lia).
+    assert (Hne : slice (ndata nb) k (k + kk) <> []).
+    { intros Hq. rewrite Hq in Hz. unfold zlen in Hz. cbn in Hz. lia. }
+    destruct (layer_write sl lh fl key _ _ Hl Hne) as [sl' [Hw Hl']]. rewrite Hz in *.
+    assert (E1 : (0 <? kk) = true) by (apply Z.ltb_lt; lia). rewrite E1, Hw.
+    assert (E2 : (kk <? 0) = false) by (apply Z.ltb_ge; lia).
+    assert (E3 : (kk <? kk) = false) by (apply Z.ltb_ge; lia).
+    assert (E4 : (kk =? kk) = true) by (apply Z.eqb_eq; reflexivity).
+    rewrite E2, E3, E4. cbn [orb negb].
+    rewrite firstn_slice in Hl' by lia.
+    destruct (IH sb' sl' (k + kk) Hb' ltac:(unfold kk; lia) Hl' ltac:(unfold kk in *; lia)) as [sb2 [sl2 [Hc [Hb2 [Hl2 Hv2]]]]].
+    exists sb2, sl2. repeat split; try assumption. congruence.
+Qed.
+
+(* --- the rest of copyFile --- *)
+Lemma layer_close s lh fl key d :
+  LayerAt s lh fl key d ->
+  exists s' nl, m_step s (HClose lh) = (s', ROk) /\ get_node s' fl = Some nl /\ ndir nl = false /\ ndata nl = d /\
+                lookup s' key = Some fl.
+Proof.
+  intros [hl [nl [Hh [Hf [Hc [Hro [Hk [Hn [Hd [Hdat Hl]]]]]]]]]]. subst fl.
+  rewrite m_step_bump. cbn [m_step_raw]. unfold m_hop. rewrite Hh, Hn, Hc, Hro. cbn [fst snd].
+  eexists. exists (with_mtime (mclock (set_handle s lh (set_closed hl))) nl). split; [reflexivity|].
+  split; [|split; [exact Hd | split; [exact Hdat|]]].
+  - exact (get_node_upd_eq (set_handle s lh (set_closed hl)) (href hl) _ nl Hn).
+  - unfold bump, lookup. cbn [mdata]. rewrite mdata_upd. exact Hl.
+Qed.
+
+Lemma layer_chtimes s name fl nl t :
+  lookup s (normalize_path name) = Some fl -> get_node s fl = Some nl ->
+  exists s', m_step s (Chtimes name t) = (s', ROk) /\ get_node s' fl = Some (with_mtime t nl) /\
+             lookup s' (normalize_path name) = Some fl.
+Proof.
+  intros Hl Hn. rewrite m_step_bump. cbn [m_step_raw]. unfold m_chtimes. rewrite Hl. cbn [fst snd].
+  eexists. split; [reflexivity|]. split.
+  - exact (get_node_upd_eq s fl (with_mtime t) nl Hn).
+  - unfold bump, lookup. cbn [mdata]. rewrite mdata_upd. exact Hl.
+Qed.
+
+(* the directory preparation of copyFile: Exists(layer, dir), MkdirAll(dir) when missing *)
+Definition dir_prep (sl : mst) (name : str) : mst * option err :=
+  let dir := path_dir name in
+  let '(sl0, ex) := l_exists m_step sl dir in
+  match ex with
+  | inr e => (sl0, Some e)
+  | inl true => (sl0, None)
+  | inl false =>
+    match m_step sl0 (MkdirAll dir 511) with
+    | (s, ROk) => (s, None)
+    | (s, r) => (s, match res_err r with Some e => Some e | None => Some (E KOther) end)
+    end
+  end.
+
+(* what copyFile needs of layer.Create(name): a fresh read-write handle at offset 0 on an empty regular
+   file that is registered under the (normalised) name *)
+Definition CreateOK (s : mst) (name : str) : Prop :=
+  exists s2 lh fl nl, m_step s (Create name) = (s2, RHandle lh) /\
+    nth_error (mhandles s2) lh = Some (mkH fl 0 0 false false) /\
+    get_node s2 fl = Some nl /\ ndir nl = false /\ ndata nl = [] /\ lookup s2 (normalize_path name) = Some fl.
+
+(* the sane-state hypothesis of the first-read theorem *)
+Definition layer_ready (sl : mst) (name : str) : Prop :=
+  snd (dir_prep sl name) = None -> CreateOK (fst (dir_prep sl name)) name.
+
+(* copyFile after the directory preparation (the text of Model/Union.v copy_file from layer.Create on) *)
+Definition copy_body (sb sl1 : mst) (name : str) (bh : nat) : mst * mst * option err :=
+  match m_step sl1 (Create name) with
+  | (sl2, RHandle lh) =>
+    let '(sb1, st) := m_step sb (HStat bh) in
+    let fuel := match st with RInfo fi => S (S (Z.to_nat (fi_size fi))) | _ => 2%nat end in
+    let '(sb2, sl3, n, cerr) := io_copy m_step m_step fuel sb1 sl2 bh lh 0 in
+    match cerr with
+    | Some e =>
+      let sl4 := fst (m_step sl3 (Remove name)) in
+      let sl5 := fst (m_step sl4 (HClose lh)) in (sb2, sl5, Some e)
+    | None =>
+      let '(sb3, st2) := m_step sb2 (HStat bh) in
+      match st2 with
+      | RInfo bfi =>
+        if negb (fi_size bfi =? n) then
+          let sl4 := fst (m_step sl3 (Remove name)) in
+          let sl5 := fst (m_step sl4 (HClose lh)) in (sb3, sl5, Some (E KEIO))
+        else
+          match m_step sl3 (HClose lh) with
+          | (sl4, ROk) =>
+            match m_step sl4 (Chtimes name (fi_mtime bfi)) with
+            | (sl5, ROk) => (sb3, sl5, None)
+            | (sl5, r) => (sb3, sl5, match res_err r with Some e => Some e | None => Some (E KOther) end)
+            end
+          | (sl4, r) =>
+            let sl5 := fst (m_step sl4 (Remove name)) in
+            let sl6 := fst (m_step sl5 (HClose lh)) in
+            (sb3, sl6, match res_err r with Some e => Some e | None => Some (E KOther) end)
+          end
+      | _ =>
+        let sl4 := fst (m_step sl3 (Remove name)) in
+        let sl5 := fst (m_step sl4 (HClose lh)) in (sb3, sl5, Some (E KEIO))
+      end
+    end
+  | (sl2, r) => (sb, sl2, match res_err r with Some e => Some e | None => Some (E KOther) end)
+  end.
+
+Lemma copy_file_prep sb sl name bh :
+  copy_file m_step m_step sb sl name bh =
+  match dir_prep sl name with
+  | (sl1, Some e) => (sb, sl1, Some e)
+  | (sl1, None) => copy_body sb sl1 name bh
+  end.
+Proof.
+  unfold copy_file, dir_prep, copy_body. destruct (l_exists m_step sl (path_dir name)) as [sl0 [[|]|e]]; try reflexivity.
+  all: destruct (m_step sl0 (MkdirAll (path_dir name) 511)) as [s r]; destruct r; reflexivity.
+Qed.
+
+(* after a Create that behaved, the copy cannot fail and leaves exactly the base's bytes and mtime *)
+Lemma copy_body_correct sb sl1 name bh fb nb :
+  BaseAt sb bh fb nb 0 -> ndir nb = false -> CreateOK sl1 name ->
+  exists sb' sl' fl nl, copy_body sb sl1 name bh = (sb', sl', None) /\
+    lookup sl' (normalize_path name) = Some fl /\ get_node sl' fl = Some nl /\
+    ndir nl = false /\ ndata nl = ndata nb /\ nmtime nl = nmtime nb /\
+    fs_view sb' = fs_view sb /\ BaseAt sb' bh fb nb (zlen (ndata nb)).
+Proof.
+  intros Hb Hnd [sl2 [lh [fl [nl0 [Hc [Hh [Hn [Hd [Hdat Hl]]]]]]]]].
+  unfold copy_body. rewrite Hc.
+  assert (Hst : forall s k, BaseAt s bh fb nb k -> m_step s (HStat bh) = (bump s, RInfo (finfo_of nb))).
+  { intros s k [h [H1 [H2 [_ [_ [_ H3]]]]]]. subst fb. exact (mstep_hstat s bh h nb H1 H3). }
+  rewrite (Hst sb 0 Hb).
+  assert (Hsz : fi_size (finfo_of nb) = zlen (ndata nb)) by (unfold finfo_of; cbn [fi_size]; rewrite Hnd; reflexivity).
+  rewrite Hsz.
+  assert (Hl0 : LayerAt sl2 lh fl (normalize_path name) (firstn (Z.to_nat 0) (ndata nb))).
+  { exists (mkH fl 0 0 false false), nl0. cbn [firstn Z.to_nat href hclosed hro hat]. repeat split; assumption. }
+  destruct (io_copy_correct bh fb nb lh fl (normalize_path name) (S (S (Z.to_nat (zlen (ndata nb))))) (bump sb) sl2 0
+              (BaseAt_bump _ _ _ _ _ Hb) ltac:(pose proof (zlen_ge0 (ndata nb)); lia) Hl0 ltac:(lia))
+    as [sb2 [sl3 [Hio [Hb2 [Hl3 Hv]]]]].
+  rewrite Hio. rewrite (Hst sb2 _ Hb2). rewrite Hsz, Z.eqb_refl. cbn [negb].
+  destruct (layer_close sl3 lh fl _ _ Hl3) as [sl4 [nl4 [Hcl [Hn4 [Hd4 [Hdat4 Hl4]]]]]]. rewrite Hcl.
+  destruct (layer_chtimes sl4 name fl nl4 (fi_mtime (finfo_of nb)) Hl4 Hn4) as [sl5 [Hct [Hn5 Hl5]]]. rewrite Hct.
+  exists (bump sb2), sl5, fl, (with_mtime (fi_mtime (finfo_of nb)) nl4). repeat split; try assumption.
+Qed.
+
+(* copyToLayer: Open on the base, copyFile, Close of the base handle *)
+Theorem copy_to_layer_correct sb sl name fb nb :
+  lookup sb (normalize_path name) = Some fb -> get_node sb fb = Some nb -> ndir nb = false ->
+  snd (dir_prep sl name) = None -> CreateOK (fst (dir_prep sl name)) name ->
+  exists sb' sl' fl nl, copy_to_layer m_step m_step sb sl name = (sb', sl', None) /\
+    lookup sl' (normalize_path name) = Some fl /\ get_node sl' fl = Some nl /\
+    ndir nl = false /\ ndata nl = ndata nb /\ nmtime nl = nmtime nb /\ fs_view sb' = fs_view sb.
+Proof.
+  intros Hl Hn Hd Hp Hc. unfold copy_to_layer, copy_to_layer_with.
+  assert (Ho : m_step sb (Open name) = (bump (fst (alloc_handle sb (mkH fb 0 0 false true))), RHandle (length (mhandles sb)))).
+  { rewrite m_step_bump. cbn [m_step_raw]. unfold m_open. rewrite Hl. reflexivity. }
+  rewrite Ho. set (sb1 := bump (fst (alloc_handle sb (mkH fb 0 0 false true)))).
+  assert (Hb : BaseAt sb1 (length (mhandles sb)) fb nb 0).
+  { exists (mkH fb 0 0 false true). repeat split; try reflexivity; [|exact Hn].
+    unfold sb1, bump, alloc_handle. cbn [fst mhandles]. apply nth_error_app_last. }
+  rewrite copy_file_prep. destruct (dir_prep sl name) as [sl1 pe]. cbn [fst snd] in *. subst pe.
+  destruct (copy_body_correct sb1 sl1 name _ fb nb Hb Hd Hc) as [sb2 [sl2 [fl [nl [Hcb [H1 [H2 [H3 [H4 [H5 [H6 H7]]]]]]]]]]].
+  rewrite Hcb. destruct H7 as [hb [Hbh [Hbf [Hbc [Hbro [Hbk Hbn]]]]]].
+  eexists. exists sl2, fl, nl. split; [reflexivity|]. repeat split; try assumption.
+  (* closing the read-only base handle leaves the base as it was *)
+  rewrite m_step_bump. cbn [m_step_raw]. unfold m_hop. rewrite Hbh. subst fb. rewrite Hbn, Hbc, Hbro.
+  exact H6.
+Qed.
+
+(* C10, first read: after a successful copyToLayer of a regular base file the layer holds exactly the
+   base's bytes under the base's mtime, and the base is what it was — for every file size *)
+Theorem first_read sb sl name fb nb sb' sl' :
+  lookup sb (normalize_path name) = Some fb -> get_node sb fb = Some nb -> ndir nb = false ->
+  layer_ready sl name ->
+  copy_to_layer m_step m_step sb sl name = (sb', sl', None) ->
+  exists fl nl, lookup sl' (normalize_path name) = Some fl /\ get_node sl' fl = Some nl /\
+    ndir nl = false /\ ndata nl = ndata nb /\ nmtime nl = nmtime nb /\ fs_view sb' = fs_view sb.
+Proof.
+  intros Hl Hn Hd Hr Hc.
+  assert (Hp : snd (dir_prep sl name) = None).
+  { destruct (snd (dir_prep sl name)) as [e|] eqn:E; [|reflexivity]. exfalso. revert Hc.
+    unfold copy_to_layer, copy_to_layer_with.
+    assert (Ho : m_step sb (Open name) = (bump (fst (alloc_handle sb (mkH fb 0 0 false true))), RHandle (length (mhandles sb)))).
+    { rewrite m_step_bump. cbn [m_step_raw]. unfold m_open. rewrite Hl. reflexivity. }
+    rewrite Ho, copy_file_prep. destruct (dir_prep sl name) as [sl1 pe]. cbn [snd] in E. subst pe.
+    intros Hc. inversion Hc. }
+  destruct (copy_to_layer_correct sb sl name fb nb Hl Hn Hd Hp (Hr Hp)) as [sb2 [sl2 [fl [nl [Heq H]]]]].
+  rewrite Heq in Hc. inversion Hc; subst. exists fl, nl. exact H.
+Qed.
+
+(* --- the sane-state hypothesis holds in the two shapes a cache is in --- *)
+Lemma alist_get_set_eq {A} k (v : A) l : alist_get k (alist_set k v l) = Some v.
+Proof.
+  induction l as [|[k' v'] l IH]; cbn; [now rewrite PathProof.beqb_refl|].
+  destruct (beqb k k') eqn:E; cbn; [now rewrite PathProof.beqb_refl | now rewrite E].
+Qed.
+Lemma alist_get_set_neq {A} k k' (v : A) l : k <> k' -> alist_get k (alist_set k' v l) = alist_get k l.
+Proof.
+  intros Hne. assert (Hb : beqb k k' = false) by (apply PathProof.beqb_false_iff; exact Hne).
+  induction l as [|[k2 v2] l IH]; cbn; [now rewrite Hb|].
+  destruct (beqb k' k2) eqn:E; cbn.
+  - apply PathProof.beqb_true_iff in E. subst k2. now rewrite Hb.
+  - destruct (beqb k k2); [reflexivity | exact IH].
+Qed.
+
+(* (1) refresh: the name is already cached as a regular file — Create truncates it in place *)
+Lemma create_ok_cached s name f n :
+  lookup s (normalize_path name) = Some f -> get_node s f = Some n -> ndir n = false -> CreateOK s name.
+Proof.
+  intros Hl Hn Hd. unfold CreateOK. rewrite m_step_bump. cbn [m_step_raw]. unfold m_create. rewrite Hl, Hn, Hd.
+  cbn [fst snd alloc_handle].
+  eexists. exists (length (mhandles (upd_node s f (fun n0 => with_mtime (mclock s) (with_data [] n0))))), f,
+    (with_mtime (mclock s) (with_data [] n)).
+  split; [reflexivity|]. repeat split.
+  - unfold bump. cbn [mhandles]. apply nth_error_app_last.
+  - exact (get_node_upd_eq s f _ n Hn).
+  - exact Hd.
+  - unfold bump, lookup. cbn [mdata]. rewrite mdata_upd. exact Hl.
+Qed.
+
+(* (2) first fill into a directory the cache already has: no dangling entries in the path map *)
+Definition wf_map (s : mst) : Prop := forall k v, lookup s k = Some v -> (v < length (mheap s))%nat.
+Definition parent_key (key : str) : str := normalize_path (clean (fst (path_split key))).
+
+Lemma create_ok_new s name p :
+  wf_map s -> lookup s (normalize_path name) = None -> lookup s (parent_key (normalize_path name)) = Some p ->
+  CreateOK s name.
+Proof.
+  intros Hwf Hl Hp. set (key := normalize_path name) in *.
+  assert (Hne : parent_key key <> key) by (intros Hq; rewrite Hq in Hp; congruence).
+  assert (Hpf : p <> length (mheap s)) by (pose proof (Hwf _ _ Hp); lia).
+  unfold CreateOK. rewrite m_step_bump. cbn [m_step_raw]. unfold m_create. fold key. rewrite Hl.
+  unfold m_create_node, alloc_node. cbn [fst snd].
+  set (f := length (mheap s)) in *.
+  set (s2 := set_data _ _).
+  assert (Hgf : get_node s2 f = Some (new_file key (mclock s))).
+  { unfold s2, set_data, get_node. cbn [mheap]. apply nth_error_app_last. }
+  assert (Hfp : find_parent s2 f = Some p).
+  { unfold find_parent, node_name. rewrite Hgf. cbn [nname new_file]. unfold lockfree_open, lookup, s2, set_data. cbn [mdata].
+    fold (parent_key key). rewrite alist_get_set_neq by exact Hne. exact Hp. }
+  unfold reg. cbn [register]. rewrite Hfp. unfold add_kid.
+  set (s3 := upd_node s2 p _).
+  cbn [alloc_handle fst snd].
+  eexists. exists (length (mhandles s3)), f, (new_file key (mclock s)).
+  split; [reflexivity|]. repeat split.
+  - unfold bump. cbn [mhandles]. apply nth_error_app_last.
+  - unfold bump, get_node. cbn [mheap]. change (get_node s3 f = Some (new_file key (mclock s))).
+    unfold s3. rewrite get_node_upd_neq by congruence. exact Hgf.
+  - unfold bump, lookup. cbn [mdata]. unfold s3. rewrite mdata_upd. unfold s2, set_data. cbn [mdata].
+    apply alist_get_set_eq.
+Qed.
